@@ -1,5 +1,106 @@
 import XsVerif.Driver.Util
-open Lean XsVerif.Driver
+import XsVerif.Model.Threads
+open Lean XsVerif.Driver XsVerif.Threads
 
--- stub: replaced when the model of C18 lands
-def main : IO Unit := XsVerif.Driver.run fun _ => .error "C18 driver not implemented"
+namespace XsVerif.Driver.C18
+
+def phaseStr : Phase → String
+  | .empty => "empty" | .partialBuild => "partial" | .complete => "complete"
+
+def pcStr : PC → String
+  | .start => "start" | .wantLock => "wantLock" | .locked => "locked" | .body k => s!"body{k}"
+  | .setBuilt => "setBuilt" | .post k => s!"post{k}" | .done ph => "done:" ++ phaseStr ph
+
+def wpcStr : WPC → String
+  | .chk => "chk" | .pubFirst => "pubFirst" | .rdElems => "rdElems" | .setElems => "setElems"
+  | .addSel => "addSel" | .pub => "pub" | .child => "child" | .fin b => if b then "fin:true" else "fin:false"
+
+def getNatList (j : Json) (k : String) : Except String (List Nat) := do
+  (← getArr j k).toList.mapM fun x => x.getNat?
+
+/-- run thread `t` while `p` holds of its pc (bounded) -/
+def runWhile (p : PC → Bool) (t : Nat) : Nat → Cfg → Cfg
+  | 0, c => c
+  | n + 1, c => if p (c.pc t) then runWhile p t n ((step t c).getD c) else c
+
+def isBody : PC → Bool
+  | .body _ => true
+  | _ => false
+
+def isPost : PC → Bool
+  | .post _ => true
+  | _ => false
+
+/-- Replays the observed events of the real build lock on the model: every event must be an enabled
+    step of the model and every observed read of `_built` must return the model's value. -/
+def replayBuild (bodyLen postLen : Nat) (evs : List (Nat × String × Bool)) : Except String Cfg := do
+  let mut c := init bodyLen postLen
+  let mut i := 0
+  for (t, ev, v) in evs do
+    let pc := c.pc t
+    let fail (why : String) : Except String Cfg :=
+      throw s!"event {i} (thread {t} {ev} {v}) at pc {pcStr pc}: {why}"
+    match ev, pc with
+    | "read", .start =>
+      if c.built != v then c ← fail s!"model _built = {c.built}"
+      c := (step t c).getD c
+    | "read", .locked =>
+      if c.built != v then c ← fail s!"model _built = {c.built}"
+      if !v then c := (step t c).getD c        -- enters the body; (true: the step is taken at release)
+    | "read", .done _ =>
+      if c.built != v then c ← fail s!"model _built = {c.built} after return"
+    | "read", _ => pure ()                      -- reads inside the body / post section
+    | "acquire", .wantLock =>
+      match step t c with
+      | some c' => c := c'
+      | none => c ← fail "lock is held in the model"
+    | "write", .body _ =>
+      if v then
+        c := runWhile isBody t (bodyLen + 2) c
+        c := (step t c).getD c                  -- setBuilt
+      else pure ()                              -- clear() inside the body
+    | "release", .post _ =>
+      c := runWhile isPost t (postLen + 2) c
+    | "release", .locked =>
+      if !c.built then c ← fail "release without build while _built is false"
+      c := (step t c).getD c
+    | _, _ => c ← fail "event not enabled in the model"
+    i := i + 1
+  return c
+
+def parseEv (j : Json) : Except String (Nat × String × Bool) := do
+  let a ← j.getArr?
+  if h : a.size = 3 then
+    return (← a[0].getNat?, ← a[1].getStr?, ← a[2].getBool?)
+  else throw "event"
+
+def parseMode (s : String) : Except String Mode :=
+  match s with
+  | "old" => pure .old | "cur" => pure .cur | "curCall" => pure .curCall | "patched" => pure .patched
+  | _ => throw "mode"
+
+def handle (j : Json) : Except String Json := do
+  match ← getStr j "op" with
+  | "replay" =>
+    let n ← getNat j "threads"
+    let evs ← (← getArr j "events").toList.mapM parseEv
+    match replayBuild (← getNat j "body") (← getNat j "post") evs with
+    | .error e => return Json.mkObj [("ok", false), ("why", e)]
+    | .ok c =>
+      return Json.mkObj [("ok", true), ("runs", c.runs), ("built", c.built), ("maps", phaseStr c.maps),
+        ("pcs", Json.arr ((List.range n).map fun t => Json.str (pcStr (c.pc t))).toArray)]
+  | "exec" =>
+    let n ← getNat j "threads"
+    let c := exec (← getNatList j "sched") (init (← getNat j "body") (← getNat j "post"))
+    return Json.mkObj [("runs", c.runs), ("built", c.built), ("maps", phaseStr c.maps),
+      ("pcs", Json.arr ((List.range n).map fun t => Json.str (pcStr (c.pc t))).toArray)]
+  | "wexec" =>
+    let n ← getNat j "threads"
+    let c := wexec (← parseMode (← getStr j "mode")) (← getNatList j "sched") winit
+    return Json.mkObj [("published", c.published), ("inElems", c.inElems), ("selBy", c.selBy),
+      ("pcs", Json.arr ((List.range n).map fun t => Json.str (wpcStr (c.pc t))).toArray)]
+  | op => throw s!"unknown op {op}"
+
+end XsVerif.Driver.C18
+
+def main : IO Unit := XsVerif.Driver.run XsVerif.Driver.C18.handle
